@@ -3,14 +3,14 @@ CONSTANTS
   P = 3
   NPUB = 2
   NPRIV = 0
-  PreConsts <- Pre2
-  MaxCalls = 2
+  PreConsts <- PreNone
+  MaxCalls = 3
   MaxConn = 1
-  Kinds = {"add", "sub", "mul", "div", "connect", "azero", "abool"}
+  Kinds = {"sub", "add", "div", "mul", "connect"}
   FixD1 = TRUE
   FixD2 = TRUE
   FixFuse = TRUE
-  NoFold = FALSE
+  NoFold = TRUE
 INVARIANTS
   TypeOK
   EmitReplay
